@@ -126,6 +126,21 @@ func (in *Interp) invoke(fnv Value, args []Value, cc *ssa.CallCommon, instr ssa.
 			in.unsupported("invoke on %s", describe(args[0]))
 		}
 		if recv.T == nil {
+			// loggers/metrics are no-ops even when the harness left the field nil
+			name := fmt.Sprintf("(%s).%s", cc.Value.Type().String(), cc.Method.Name())
+			for _, p := range defaultNoop {
+				if strings.HasPrefix(name, p) {
+					in.Rep.StubsHit["noop:"+p+"*"]++
+					sig := cc.Method.Type().(*types.Signature)
+					switch sig.Results().Len() {
+					case 0:
+						return nil
+					case 1:
+						return in.zero(sig.Results().At(0).Type())
+					}
+					return in.zero(sig.Results())
+				}
+			}
 			in.raise("nil pointer dereference", nil)
 		}
 		if recv.T == opaqueErrType {
@@ -135,6 +150,20 @@ func (in *Interp) invoke(fnv Value, args []Value, cc *ssa.CallCommon, instr ssa.
 			in.unsupported("method %s on opaque error", cc.Method.Name())
 		}
 		if op, ok := recv.V.(Opaque); ok {
+			if recv.T == opaqueCtxType {
+				sig := cc.Method.Type().(*types.Signature)
+				var rt types.Type
+				switch sig.Results().Len() {
+				case 1:
+					rt = sig.Results().At(0).Type()
+				case 0:
+				default:
+					rt = sig.Results()
+				}
+				if v, ok := in.ctxMethod(op, cc.Method.Name(), rt); ok {
+					return v
+				}
+			}
 			return in.opaqueMethod(op, recv.T, cc, args[1:])
 		}
 		m := in.Prog.LookupMethod(recv.T, cc.Method.Pkg(), cc.Method.Name())
@@ -150,6 +179,9 @@ func (in *Interp) invoke(fnv Value, args []Value, cc *ssa.CallCommon, instr ssa.
 	}
 	if f.B != nil {
 		return in.builtin(f.B, args, cc)
+	}
+	if f.Noop {
+		return nil
 	}
 	if f.Fn == nil {
 		in.raise("nil pointer dereference", nil)
@@ -349,7 +381,22 @@ func (in *Interp) havoc(t types.Type, tag string, nilable bool) Value {
 		}
 	case *types.Tuple:
 		tv := make(Tuple, u.Len())
-		// havoc the error first so that (value, error) pairs can be made consistent by callers
+		// Go convention for (values..., error): a non-nil error comes with zero values, a nil
+		// error with usable (non-nil unless nilable) values.
+		last := u.Len() - 1
+		if last >= 1 && u.At(last).Type().String() == "error" {
+			tv[last] = in.havoc(u.At(last).Type(), fmt.Sprintf("%s.%d", tag, last), nilable)
+			if e := tv[last].(Iface); e.T != nil {
+				for i := 0; i < last; i++ {
+					tv[i] = in.zero(u.At(i).Type())
+				}
+				return tv
+			}
+			for i := 0; i < last; i++ {
+				tv[i] = in.havoc(u.At(i).Type(), fmt.Sprintf("%s.%d", tag, i), nilable)
+			}
+			return tv
+		}
 		for i := u.Len() - 1; i >= 0; i-- {
 			tv[i] = in.havoc(u.At(i).Type(), fmt.Sprintf("%s.%d", tag, i), nilable)
 		}
@@ -880,6 +927,7 @@ type chanState struct {
 	buf    []Value
 	cap    int
 	closed bool
+	nondet bool // a ctx.Done() channel: may become closed at any observation (fork)
 }
 
 func (in *Interp) chanState(c ChanV) *chanState { return in.heap[c.Obj].V.(*chanState) }
@@ -953,6 +1001,10 @@ func (in *Interp) chanRecv(ch ChanV, et types.Type) (Value, bool) {
 		if st.closed {
 			return in.zero(et), false
 		}
+		if st.nondet && len(in.tasks) == 0 {
+			st.closed = true
+			continue
+		}
 		if !in.runOneTask() {
 			in.unsupported("blocking receive with no pending task (deadlock in task model)")
 		}
@@ -1000,6 +1052,11 @@ func (in *Interp) execSelect(fr *frame, s *ssa.Select) Value {
 			}
 			cs := in.chanState(e.ch)
 			if e.isRcv {
+				if cs.nondet && !cs.closed && in.Cfg.CtxPolicy == "nondet" {
+					if in.choose(2) == 1 {
+						cs.closed = true
+					}
+				}
 				if len(cs.buf) > 0 || cs.closed {
 					ready = append(ready, e)
 				}
